@@ -223,6 +223,14 @@ def p_mutating(lst, d=None, tag=None):
 
 def p_poison(x, poison=(), big=0):
     truth('p-enter', x=x)
+    if isinstance(x, dict) and x.get('$swallow'):
+        # uncooperative item: swallows every Exception forever
+        while True:
+            try:
+                while True:
+                    time.sleep(0.01)
+            except Exception:
+                truth('swallowed')
     if x in poison or (isinstance(x, list) and x and x[0] in poison):
         truth('p-leave', x=x, how='raise')
         raise MyError(f'poison {x}')
